@@ -220,10 +220,14 @@ pub fn roundtrip_case(dir: &Path, tag: &str, source: &[u8], spec: &scn::Compress
     let _ = std::fs::remove_file(&out_path);
     arm(&mut run);
     let o = proc::run(&run);
+    if std::env::var_os("VERIF_GATE_DEBUG").is_some() {
+        eprintln!("asan-compress {} {}: cpu {} ms wall {:.1?} maxrss {} MB source {} B", tag, spec.describe(), o.cpu_ms, o.wall, o.maxrss_kb / 1024, source.len());
+    }
     if let Verdict::MemoryError(kind, ex) = judge(&o) {
         return Err(format!("asan-report({}) in compress: {}", kind, ex));
     }
-    if matches!(o.exit, Exit::Timeout) {
+    // stopped by the harness's own watchdog or CPU-time rlimit: no verdict on the program
+    if matches!(o.exit, Exit::Timeout) || o.exit.hit_cpu_limit() {
         return Err("inconclusive: watchdog".into());
     }
     if !o.exit.ok() {
@@ -242,7 +246,7 @@ pub fn roundtrip_case(dir: &Path, tag: &str, source: &[u8], spec: &scn::Compress
     if let Verdict::MemoryError(kind, ex) = judge(&o) {
         return Err(format!("asan-report({}) in clone: {}", kind, ex));
     }
-    if matches!(o.exit, Exit::Timeout) {
+    if matches!(o.exit, Exit::Timeout) || o.exit.hit_cpu_limit() {
         return Err("inconclusive: watchdog".into());
     }
     if !o.exit.ok() {
